@@ -83,6 +83,8 @@ def interpolate_track_data_arrray(
             chosen_independent_variable = "time"
         else:
             chosen_independent_variable = str(dimensions[0])
+    else:
+        chosen_independent_variable = independent_variable
 
     # Ensure that each of the coordinate lists indicated in points is at least
     # 1D
